@@ -324,3 +324,24 @@ def replay(case) -> List[Violation]:
         return [Violation("wrong-prefix-verdict", f"{got} != {exp}", case)] if exp != got else []
     s, t, v, _ = lattice_search(case["records"], case.get("pick"))
     return [Violation(sig, msg, case) for sig, msg, _ in v[:1]]
+
+
+# ---------------------------------------------------------------------------------------------
+# environment grid (mc/envgrid.py): the verdict on a set of records depends on the records only, not on the process that aggregates them
+# (its clock, time zone, hash seed ...).  The records are produced once, in the parent, and shipped to every environment.
+
+def env_cases(tier: str):
+    out = []
+    for name, recs in make_traces("quick"):
+        if len(recs) > 40:
+            continue
+        for k in sorted({0, 1, 2, len(recs) // 2, len(recs) - 1, len(recs)}):
+            if 0 <= k <= len(recs):
+                out.append({"trace": name, "k": k, "records": recs[:k]})
+        out.append({"trace": name, "k": "reversed", "records": list(reversed(recs))})
+    return out
+
+
+def env_observe(case):
+    exp, got = ref_verdict(case["records"]), impl_verdict(case["records"])
+    return {"verdict": got, "documented": exp == got}
